@@ -55,6 +55,8 @@ structure ExecEv where
   fid  : Nat
   nth  : Nat
   args : List PVal
+  /-- the labels of the function's parameters, in the order of `args` (ghost: for the statements) -/
+  params : List Label := []
   res  : BehOut
 deriving Repr, DecidableEq
 
@@ -141,7 +143,7 @@ def callDirect (c : Ctx) (f : FuncDesc) (am : ArgMap) (s : CallSt) : Except RErr
     | .error x => (.error x, s)
     | .ok args =>
       let r := c.beh f.id (countOf s f.id) args
-      let s := { s with log := s.log ++ [{ fid := f.id, nth := countOf s f.id, args := args, res := r }],
+      let s := { s with log := s.log ++ [{ fid := f.id, nth := countOf s f.id, args := args, params := f.input.labels, res := r }],
                         count := mapSet s.count f.id (countOf s f.id + 1) }
       let s := if f.once then { s with memo := mapSet s.memo f.id { res := r, unwrapped := false } } else s
       (.ok (r, false), s)
